@@ -1357,7 +1357,21 @@ std::string Generator::GeneratorImpl::generateCode(const AnalyserEquationAstPtr 
         break;
     case AnalyserEquationAst::Type::NOT:
         if (mProfile->hasNotOperator()) {
-            code = mProfile->notString() + generateCode(ast->leftChild());
+            auto astLeftChild = ast->leftChild();
+            auto astLeftChildCode = generateCode(astLeftChild);
+
+            if (isRelationalOperator(astLeftChild)
+                || isLogicalOperator(astLeftChild)
+                || isTimesOperator(astLeftChild)
+                || isDivideOperator(astLeftChild)
+                || isPowerOperator(astLeftChild)
+                || isPiecewiseStatement(astLeftChild)
+                || ((isPlusOperator(astLeftChild) || isMinusOperator(astLeftChild))
+                    && (astLeftChild->rightChild() != nullptr))) {
+                astLeftChildCode = "(" + astLeftChildCode + ")";
+            }
+
+            code = mProfile->notString() + astLeftChildCode;
         } else {
             code = generateOneParameterFunctionCode(mProfile->notString(), ast);
         }
